@@ -166,3 +166,49 @@ def run_scenario_once(binary, faults, idx):
     last = snaps[-1] if snaps else None
     return {'e': 'tcp', 'i': idx, 'faults': list(faults), 'conns': conns, 'noaccept': noaccept, 'alive': alive, 'nsnaps': len(snaps),
             'last': [] if last is None else [{'rows': [cli.cps(x) for x in last['rows']]}]}
+
+
+def run_refresh_scenario(binary, u, gaps, idx, jitter=250):
+    """a timed feed for the refresh schedule (drift mode): one applied frame after each gap (seconds); after each frame the
+    peer waits longer than the jitter allowance and records whether a new refresh has appeared on stdout"""
+    port = free_port()
+    ls = listener(port)
+    t0 = time.time()
+    ms = lambda: int((time.time() - t0) * 1000)
+    uopt = ['-u', str(u)] if u >= 0 else ['--update=%d' % u]
+    proc = subprocess.Popen([binary, '-t', '127.0.0.1:%d' % port, '-i', ''] + uopt, stdout=subprocess.PIPE, stderr=subprocess.DEVNULL)
+    buf = bytearray()
+
+    def pump():
+        while True:
+            b = proc.stdout.read1(65536)
+            if not b:
+                break
+            buf.extend(b)
+    th = threading.Thread(target=pump, daemon=True)
+    th.start()
+    frames = []
+    try:
+        ls.settimeout(12.0)
+        c, _ = ls.accept()
+        t_acc = ms()
+        nsn = len([s_ for s_ in cli.snapshots(bytes(buf)) if 'rows' in s_])
+        for k, g in enumerate(gaps):
+            time.sleep(g)
+            fr = df17(5, 0x4f4000 + k, me_ident(4, 1, callsign_codes('RF%d' % k)))
+            t_send = ms()
+            c.sendall(fr.encode() + b'\n')
+            time.sleep((jitter + 100) / 1000.0)
+            n2 = len([s_ for s_ in cli.snapshots(bytes(buf)) if 'rows' in s_])
+            frames.append({'t': t_send, 'refreshed': n2 > nsn, 'new': n2 - nsn})
+            nsn = n2
+        alive = proc.poll() is None
+    finally:
+        try:
+            proc.kill()
+        except OSError:
+            pass
+        proc.wait()
+        th.join(timeout=2)
+        ls.close()
+    return {'e': 'refresh', 'i': idx, 'u': u, 't0': t_acc, 'jitter': jitter, 'frames': frames, 'alive': alive}
